@@ -34,7 +34,7 @@ CaseRec ==
      desc    |-> [ty \in Types |-> LayoutOut(RTDesc(ty))]]
 
 SampleHash(s) == LET h == Rank(s.stack) * 31 + SumF([j \in Types |-> s.val[j] * (7 * j + 3)]) + 1 IN (h * h) % 1009
-CaseHash == SumF([i \in 1..N |-> (i * 17 + 1) * SumF([s \in DOMAIN profs[i] |-> profs[i][s] * SampleHash(s)])]) + N
+CaseHash == SumF([i \in 1..N |-> (IF i = 1 THEN 17 ELSE IF i = 2 THEN 19 ELSE 23 + 6 * i) * SumF([s \in DOMAIN profs[i] |-> profs[i][s] * SampleHash(s)])]) + N
 
 Export == \/ ExportMod = 0
           \/ (CaseHash + ExportSeed) % ExportMod # 0
